@@ -119,7 +119,7 @@ def check_names(ctx):
                 judge_name(ctx, w, name, kind)
                 if any(not c.isalnum() for c in name):
                     ctx.nontrivial([kind, name])
-        n_rand = ctx.pick(0, 6000)
+        n_rand = ctx.pick(0, 40000)
         for k in range(n_rand):
             i += 1
             if not ctx.mine(i):
@@ -247,7 +247,7 @@ def engine_level(ctx, k):
 def run(ctx):
     check_arn_functions(ctx)
     check_names(ctx)
-    for k in range(ctx.pick(120, 2500)):
+    for k in range(ctx.pick(120, 20000)):
         if ctx.mine(k):
             engine_level(ctx, k)
 
